@@ -132,7 +132,7 @@ class Res(object):
             yield
         except accept as e:
             raise Refused(e)
-        except (HarnessError, Refused):
+        except (HarnessError, Refused, Aborted):
             raise
         except RecursionError as e:
             self.fail('exc:%s:RecursionError' % stage, 'RecursionError')
@@ -461,7 +461,7 @@ def run_property(modname, tier, seed, only=None):
         more = mod.finish(tier, seed, total)
         if more: extra.update(more)
     # 3. adjudicate
-    violations, known_seen = [], {}
+    violations, known_seen, unstable = [], {}, []
     sdict = {s.name: s for s in searches}
     for sig, f in sorted(total.findings.items()):
         e = known_match(known, sig)
@@ -485,9 +485,22 @@ def run_property(modname, tier, seed, only=None):
             case, detail = f['case'], f['detail']
             R = evaluate(mod, case)
             if not any(s2 == sig for s2, _d in R.findings):
-                raise HarnessError('finding %s does not reproduce from its own case' % sig)
+                # Observed against the real code during the search, but the case evaluated alone in a fresh
+                # interpreter state passes: the answer depended on calls made earlier in the same process
+                # (state carried between calls). Kept aside; reported only if nothing reproducible was found.
+                unstable.append((sig, case, detail, f))
+                continue
         path = write_replay(pid, sig, case, detail, f['seed'], f['search'])
         violations.append((sig, path, detail, f['count']))
+    if unstable:
+        extra['history_dependent_findings'] = [{'signature': sig, 'detail': str(detail)[:300], 'cases': f['count']}
+                                               for sig, _c, detail, f in unstable[:10]]
+    if unstable and not violations:
+        for sig, case, detail, f in unstable[:3]:
+            note = ('[observed %d time(s) during the search, in a process that had evaluated other cases before; '
+                    'the case alone does not show it: the library carries state between calls] ' % f['count'])
+            path = write_replay(pid, 'history-dependent:' + sig, case, note + str(detail), f['seed'], f['search'])
+            violations.append(('history-dependent:' + sig, path, note + str(detail), f['count']))
     for e in known:
         if e.get('status') == 'open' and e['id'] in known_seen:
             print('KNOWN-FINDING: property=%s %s [%s, %d cases]' % (
